@@ -48,19 +48,32 @@ def tofile_chunks(tier='quick', seed=0):
     # 1. the chunk size: located structurally -- the first argument of the `.cut(...)` call that drives the write loop, followed
     #    through one local assignment -- so that renaming the local or inlining the constant does not matter.  An implementation
     #    without such a call has no chunk constant: the obligation does not arise (the native read/write checks still run).
+    def _const(expr):
+        try:
+            v = eval(compile(ast.Expression(expr), '<chunk size>', 'eval'), {})
+            return v if isinstance(v, int) and not isinstance(v, bool) else None
+        except Exception:
+            return None
+
     def _locate(fnode):
         cut = next((n for n in ast.walk(fnode) if isinstance(n, ast.Call) and isinstance(n.func, ast.Attribute) and n.func.attr == 'cut' and n.args), None)
-        if cut is None:
-            return None, None
-        arg = cut.args[0]
-        if isinstance(arg, ast.Name):
-            asg = next((n for n in ast.walk(fnode) if isinstance(n, ast.Assign) and len(n.targets) == 1 and isinstance(n.targets[0], ast.Name)
-                        and n.targets[0].id == arg.id), None)
-            return ('assign', asg) if asg is not None else (None, None)
-        return 'arg', cut
+        if cut is not None:
+            arg = cut.args[0]
+            if isinstance(arg, ast.Name):
+                asg = next((n for n in ast.walk(fnode) if isinstance(n, ast.Assign) and len(n.targets) == 1 and isinstance(n.targets[0], ast.Name)
+                            and n.targets[0].id == arg.id), None)
+                return ('assign', asg) if asg is not None else (None, None)
+            return 'arg', cut
+        # no .cut(...) drives the loop (the writer slices by hand): the chunk size is then the local that is assigned a large constant
+        # expression (anything from 1024 up) -- found by value, not by name
+        big = [n for n in ast.walk(fnode) if isinstance(n, ast.Assign) and len(n.targets) == 1 and isinstance(n.targets[0], ast.Name)
+               and (_const(n.value) or 0) >= 1024]
+        if len(big) == 1:
+            return 'assign-free', big[0]
+        return None, None
     where, holder = _locate(fn.node)
     val = None
-    if where is not None:
+    if where in ('assign', 'arg'):
         expr = holder.value if where == 'assign' else holder.args[0]
         try:
             val = eval(compile(ast.Expression(expr), '<chunk size>', 'eval'), {})
@@ -81,7 +94,7 @@ def tofile_chunks(tier='quick', seed=0):
             break
         node = copy.deepcopy(fn.node)
         w2, h2 = _locate(node)
-        if w2 == 'assign':
+        if w2 in ('assign', 'assign-free'):
             h2.value = ast.Constant(k)
         else:
             h2.args[0] = ast.Constant(k)
@@ -148,6 +161,55 @@ def native_io(tier='quick', seed=0):
                             fails.append({'call': f'read back window offset={off} length={ln} of a {total}-bit file', 'python': "FAILS = True"})
                     except Exception as e:
                         fails.append({'call': f'read back window offset={off} length={ln}', 'observed': type(e).__name__, 'python': "FAILS = True"})
+        # a BytesIO or file handle is read as a whole whatever its current position, and reading it does not use it up: building twice, or
+        # after the caller (or a windowed construction) has moved the position, gives the same bits
+        for _ in range(40 if tier == 'quick' else 400):
+            nb = rng.randint(1, 12)
+            raw = bytes(rng.randrange(256) for _ in range(nb))
+            bits_all = ''.join(format(x, '08b') for x in raw)
+            p = os.path.join(tmp, 'h.bin')
+            with open(p, 'wb') as fh:
+                fh.write(raw)
+            k = rng.randint(0, nb)
+            off = rng.randint(0, 8 * nb)
+            ln = rng.randint(0, 8 * nb - off)
+            for kind in ('BytesIO', 'file handle'):
+                for cls in (Bits, BitArray, ConstBitStream):
+                    evals += 1
+                    h = io.BytesIO(raw) if kind == 'BytesIO' else open(p, 'rb')
+                    try:
+                        steps = []
+                        h.read(k)
+                        steps.append((f'after h.read({k})', cls(h).bin, bits_all))
+                        steps.append(('built a second time', cls(h).bin, bits_all))
+                        steps.append((f'window offset={off} length={ln}', cls(h, offset=off, length=ln).bin, bits_all[off:off + ln]))
+                        steps.append(('whole again after the window', cls(h).bin, bits_all))
+                        out = io.BytesIO()
+                        cls(bytes=raw).tofile(out)
+                        steps.append(('from the BytesIO that tofile just wrote', cls(out).bin, bits_all))
+                        bad = next((st for st in steps if st[1] != st[2]), None)
+                    except Exception as e:
+                        bad = ('raised', type(e).__name__, '')
+                    finally:
+                        h.close()
+                    if bad:
+                        fails.append({'call': f'{cls.__name__}(<{kind} over {raw.hex()}>) {bad[0]}', 'observed': str(bad[1])[:80], 'expected': str(bad[2])[:80],
+                                      'python': 'import io, bitstring\n' + f"raw = bytes.fromhex('{raw.hex()}')\nh = io.BytesIO(raw)\nh.read({k})\n"
+                                                f"a = bitstring.{cls.__name__}(h).tobytes()\nb = bitstring.{cls.__name__}(h).tobytes()\n"
+                                                f"o = io.BytesIO(); bitstring.{cls.__name__}(bytes=raw).tofile(o)\nc = bitstring.{cls.__name__}(o).tobytes()\n"
+                                                "FAILS = a != raw or b != raw or c != raw\n"})
+                        break
+        # one large write: more than 12.5 MiB (and in the thorough tier more than 100 MiB, past the writer's chunk size), a few bits over
+        for mib, extra in ((13, 5),) if tier == 'quick' else ((13, 5), (101, 3)):
+            evals += 1
+            big = Bits(bytes=bytes(rng.randrange(256) for _ in range(4096)) * (mib * 256)) + Bits(bin='1' * extra)
+            out = io.BytesIO()
+            big.tofile(out)
+            if out.getvalue() != big.tobytes():
+                fails.append({'call': f'tofile of {len(big)} bits', 'observed': f'{len(out.getvalue())} bytes written', 'expected': f'{len(big.tobytes())} bytes',
+                              'python': 'import io, bitstring\n' + f"b = bitstring.Bits(bytes=bytes(range(256)) * {mib * 4096}) + bitstring.Bits(bin='{'1' * extra}')\n"
+                                        "o = io.BytesIO(); b.tofile(o)\nFAILS = o.getvalue() != b.tobytes()\n"})
+            del big, out
         # bytes= from every kind of buffer object, with and without a window: always the window of the *bytes* of the buffer
         import array as _array
         for _ in range(300 if tier == 'quick' else 5000):
